@@ -1177,25 +1177,46 @@ def rule_operands(crate, dispositions=None):
             if st.get("k") == "Let" and st.get("init") is not None and st["pat"].get("k") == "Binding":
                 arm_inits[st["pat"]["id"]] = st["init"]
 
+        inline_sugar_safe = {}
+
         def bare_for(sid, op):
             """kinds printed bare over all printing sites of this operand in the arm, for operator `op`;
             "?" when a closure's shape is not understood"""
             bare = None
+            saw_wp = saw_pp = saw_closure = False
             for c in walk(a["body"]):
                 if c.get("k") == "Call" and c.get("args") and local_of(c["args"][0]) == sid:
                     cal = callee(c) or ""
                     fl = local_of(c["f"]) if c["f"].get("k") == "Path" else None
                     if fl in closures:
+                        saw_closure = True
                         bs = _closure_bare_set(crate, closures[fl], all_kinds, op, arm_inits, ids[0])
                         if bs is None:
                             return "?"
                         bare = (bare or set()) | bs
                     elif cal.endswith("typed_ast::with_parens"):
+                        saw_wp = True
                         bare = bare or set()
                     elif cal.endswith("typed_ast::with_parens_liberal"):
+                        saw_wp = True
                         bare = (bare or set()) | {"~quantity-literal"}
                 elif c.get("k") == "MethodCall" and c["name"] == "pretty_print" and local_of(c["recv"]) == sid:
+                    saw_pp = True
                     bare = set(all_kinds)
+            if saw_wp and saw_pp and not saw_closure:
+                # the decision is written inline (`if needs_parens { with_parens(x) } else { x.pretty_print() }`, possibly
+                # through boolean locals): evaluate the arm for every kind of operand
+                from wpeval import evaluate
+
+                table, ev_, why_ = evaluate(crate, fn, all_kinds, adt=TYPED_E, body=a["body"], pid=sid)
+                if table is None:
+                    return "?"
+                ev_bare = {kd for kd in all_kinds if any(r[1] == "bare" for r in table[kd])}
+                # calls in sugar form: safe iff every case in which is_printed_in_sugar_form holds is parenthesised
+                sugar_atoms = [nm for nm in ev_.atoms if "is_printed_in_sugar_form" in nm]
+                safe = bool(sugar_atoms) and all(r[1] == "paren" for kd in ("FunctionCall", "CallableCall") for r in table.get(kd, []) if any(r[0].get(nm) for nm in sugar_atoms))
+                inline_sugar_safe[(sid, op)] = safe
+                return ev_bare
             return bare
 
         for side, sid in (("lhs", lhs_id), ("rhs", rhs_id)):
@@ -1229,7 +1250,7 @@ def rule_operands(crate, dispositions=None):
                 # a call that is printed bare must not be one of those, unless the conversion level binds tighter here
                 conv_d = op_depth.get("ConvertTo")
                 if conv_d is not None and ({"FunctionCall", "CallableCall"} & bare) and ((side == "rhs" and conv_d <= d) or (side == "lhs" and conv_d < d)):
-                    tested = False
+                    tested = inline_sugar_safe.get((sid, op), False)
                     for c in walk(a["body"]):
                         if c.get("k") == "Call" and c.get("args") and local_of(c["args"][0]) == sid:
                             fl = local_of(c["f"]) if c["f"].get("k") == "Path" else None
